@@ -78,11 +78,16 @@ Definition im1  : pynum := PInt (-1)%Z.
 (* inv_root_override : int | Sequence[int] *)
 Inductive iro_t := IroScalar (x : pynum) | IroSeq (l : list pynum).
 
+(* The class whose fields and __post_init__ the config object has.  Whether the object's *exact* type is that library
+   class or a user-defined subclass of it is the flag gsub / pc_sub of the configuration: every dispatch of the
+   constructor is written `type(cfg) is C` / `type(cfg) in (...)`, so a subclass instance is an unsupported type. *)
 Inductive graft_kind := GraftNone | GraftSGD | GraftAdaGrad | GraftRMSprop | GraftAdam
-                      | GraftUnsupported.   (* any other GraftingConfig subclass (no validated field) *)
+                      | GraftUnsupported.   (* a direct GraftingConfig subclass (no validated field) *)
 Inductive pc_kind_t := PCShampoo | PCEigenvalueCorrected
-                     | PCUnsupported.       (* any other PreconditionerConfig subclass; inherits __post_init__ *)
-Inductive dist_t := DistNone | DistUnsupported.
+                     | PCUnsupported.       (* a direct PreconditionerConfig subclass; inherits its __post_init__ *)
+Inductive dist_t := DistNone
+                  | DistUnsupported.        (* a direct DistributedConfig subclass or a subclass of any of the five library
+                                               classes (none has a validated field) *)
 
 Record raw_cfg := mk_raw {
   lr : pynum; beta1 : pynum; beta2 : pynum; beta3 : pynum; epsilon : pynum;
@@ -97,7 +102,10 @@ Record raw_cfg := mk_raw {
   pc_kind : pc_kind_t;      (* type of preconditioner_config *)
   nt : pynum;               (* preconditioner_config.num_tolerated_failed_amortized_computations *)
   ignored : list Z;         (* preconditioner_config.ignored_dims (a list of ints) *)
-  dist : dist_t             (* distributed_config *)
+  dist : dist_t;            (* distributed_config *)
+  gsub : bool;              (* grafting_config is an instance of a user-defined SUBCLASS of the class named by gkind
+                               (it inherits that class's fields and __post_init__, but its exact type is not a library class) *)
+  pc_sub : bool             (* preconditioner_config is an instance of a user-defined subclass of the class named by pc_kind *)
 }.
 
 (* which `raise ValueError` fired *)
@@ -176,20 +184,26 @@ Definition int64_max : Z := 9223372036854775807%Z.
 Definition is_int64 (x : pynum) : bool :=
   match x with PInt z => (Z.leb (- int64_max - 1) z && Z.leb z int64_max)%Z | _ => false end.
 
+(* exact-type dispatches: `type(cfg) is ShampooPreconditionerConfig`, `type(cfg) is SGDGraftingConfig`,
+   `type(cfg) in (AdaGradGraftingConfig, RMSpropGraftingConfig, AdamGraftingConfig)`; None needs no type *)
+Definition pc_type_known (r : raw_cfg) : bool :=
+  match pc_kind r with PCUnsupported => false | PCShampoo | PCEigenvalueCorrected => negb (pc_sub r) end.
+Definition graft_type_known (r : raw_cfg) : bool :=
+  match gkind r with
+  | GraftNone => true
+  | GraftUnsupported => false
+  | GraftSGD | GraftAdaGrad | GraftRMSprop | GraftAdam => negb (gsub r)
+  end.
+
 (* everything after the guards: super().__init__ and the _instantiate_* calls *)
 Definition dispatch (r : raw_cfg) : result :=
   match dist r with
   | DistUnsupported => RaiseNotImplemented                       (* _instantiate_distributor *)
   | DistNone =>
       if negb (is_int64 (mpd r)) then RaiseOther                 (* Distributor: multi_dim_split -> torch.split *)
-      else match pc_kind r with
-           | PCUnsupported => RaiseNotImplemented                (* _instantiate_shampoo_preconditioner_list *)
-           | _ =>
-               match gkind r with
-               | GraftUnsupported => RaiseNotImplemented         (* _instantiate_grafting *)
-               | _ => Ok {| c_beta3 := resolve_beta3 r; c_start := resolve_start r |}
-               end
-           end
+      else if negb (pc_type_known r) then RaiseNotImplemented          (* _instantiate_shampoo_preconditioner_list *)
+      else if negb (graft_type_known r) then RaiseNotImplemented       (* _instantiate_grafting *)
+      else Ok {| c_beta3 := resolve_beta3 r; c_start := resolve_start r |}
   end.
 
 Definition init (r : raw_cfg) : result :=
